@@ -154,6 +154,19 @@ PageInfoOK(f, d, q) ==
       ELSE IF q.id \in starts THEN q.type = TypeName(PFlags(f, o)) /\ q.count = PCount(f, o) /\ q.ov = POverflow(f, o)
       ELSE q.type # "none"
 
+\* `bbolt pages` (cmd/bbolt/command/command_pages.go): one row per page START below the high-water mark - the two meta
+\* pages, the freelist page, every tree page, every free page - in ascending order (continuation pages of an
+\* overflowing page are skipped), each with the type / item count / overflow Tx.Page reports; count and overflow are
+\* blank (-1 / 0) for free pages.
+PagesTableIds(d) ==
+   LET freeSet == IF d.freelist = -1 THEN (2..(d.hwm - 1)) \ {d.pages[i] : i \in 1..Len(d.pages)} ELSE {d.free[i] : i \in 1..Len(d.free)}
+   IN {0, 1} \cup {d.starts[i] : i \in 1..Len(d.starts)} \cup (IF d.freelist = -1 THEN {} ELSE {d.freelist}) \cup freeSet
+PagesRowOK(f, d, r) ==
+   LET freeSet == IF d.freelist = -1 THEN (2..(d.hwm - 1)) \ {d.pages[i] : i \in 1..Len(d.pages)} ELSE {d.free[i] : i \in 1..Len(d.free)}
+       o == PgOff(f, r.id)
+   IN IF r.id \in freeSet THEN r.type = "free" /\ r.items = -1 /\ r.ov = 0
+      ELSE r.type = TypeName(PFlags(f, o)) /\ r.items = PCount(f, o) /\ r.ov = POverflow(f, o)
+
 (***************************************************************************)
 (* The accounting predicate (C07 / C19): g is a page graph                 *)
 (*   [hwm, reach (sequence of reachable page ids, one entry per reference),*)
